@@ -25,13 +25,13 @@ namespace c18
   // regular refinement because the child transformation is the parent transformation composed with an affine map of the
   // reference cell; Crouzeix-Raviart/Rannacher-Turek and Q1TBNP are non-conforming and not nested (only linear
   // polynomials are reproduced, DESIGN C18)
-  static const ElemMeta M_L1{"lagrange1", 1, 1, true, true, 4000};
+  static const ElemMeta M_L1{"lagrange1", 1, 1, true, true, 8000};
   static const ElemMeta M_L2{"lagrange2", 2, 2, true, true, 20000};
   static const ElemMeta M_L3{"lagrange3", 3, 3, true, true, 200000};
   static const ElemMeta M_D0{"discontinuous0", 0, 0, true, false, 4000};
-  static const ElemMeta M_D1{"discontinuous1", 1, 1, true, true, 4000};
-  static const ElemMeta M_B2{"bernstein2", 2, 2, true, true, 20000};
-  static const ElemMeta M_CRS{"crouzeix-raviart", 1, 1, false, true, 4000};
+  static const ElemMeta M_D1{"discontinuous1", 1, 1, true, true, 50000};
+  static const ElemMeta M_B2{"bernstein2", 2, 2, true, true, 200000};
+  static const ElemMeta M_CRS{"crouzeix-raviart", 1, 1, false, true, 8000};
   static const ElemMeta M_CRH{"rannacher-turek", 1, 2, false, true, 20000};
   static const ElemMeta M_QB{"q1tbnp", 1, 2, false, true, 20000};
 } // namespace c18
